@@ -4,10 +4,10 @@
 # evidence/<ID>.json is saved and restored around each run (it must only ever describe runs on /repo).
 set -u
 P="$(realpath "$1")"; shift
-WT=/tmp/wt/mut
+WT=${MUT_WT:-/tmp/wt/mut}
 git -C /repo worktree remove --force $WT >/dev/null 2>&1
 git -C /repo worktree add -q --detach $WT HEAD || exit 2
-trap 'git -C /repo worktree remove --force $WT >/dev/null 2>&1' EXIT
+trap 'git -C /repo worktree remove --force $WT >/dev/null 2>&1; rm -rf /verif/.work/alt-$(echo "$WT" | md5sum | cut -c1-8)' EXIT
 git -C $WT apply "$P" || { echo "patch does not apply"; exit 2; }
 for id in "$@"; do
   echo "== $id on mutant $(basename "$(dirname "$P")")/$(basename "$P") (worktree)"
